@@ -13,7 +13,7 @@ desc() { case "$1" in
  C03) echo "comment lost / duplicated / code swallowed: comment at a position the formatter does not anticipate (trailing trivia assumed inline; transplant sites carrying 2 of 4 trivia slots)";;
  C04) echo "long-bracket string value changes when line-ending normalisation meets a lone CR";;
  C06) echo "not idempotent: layout decision taken on the input text (removed parentheses, input spans) / comment at an unanticipated position / CRLF comment trivia";;
- C07) echo "formatting time grows exponentially with the nesting depth of calls that take a function argument: trial formatting in the call-argument heuristics is repeated at every level";;
+C07) echo "(see the individual class descriptions) formatting time grows exponentially with the nesting depth of calls that take a function argument: trial formatting in the call-argument heuristics is repeated at every level";;
  C08) echo "ignored text not verbatim";;
  C09) echo "out-of-range text not verbatim";;
  C10) echo "comment re-attached without passing through the token formatter (raw trivia copy): its line endings / position are not normalised";;
@@ -29,6 +29,8 @@ python3 - <<'PY'
 import json
 k=json.load(open('known_findings.json'))
 SPECIAL=[
+ (lambda s: s.startswith('types|panic|'),
+  "the parser (full_moon 1.2.0, parsers.rs:1818, Option::unwrap on None) panics on an invalid Luau type that mixes a leading-separator intersection with a union, and format_code does not turn the panic into a parse error"),
  (lambda s: s.startswith('sortrequires|') and 'range:' in s and 'semi:' in s and ';sort=on' in s,
   "require sorting under a range: positions are recomputed after the group has been sorted, so a statement that was inside the range can fall outside it afterwards - it is then printed unformatted while the semicolon that separated it from a following '(' statement has been dropped with its former neighbour"),
 ]
